@@ -102,6 +102,33 @@ fn run(op: &Value) -> Value {
                 Err(_) => json!({"ok": false}),
             }
         }
+        "uri_build" => {
+            let mut b = conjure_http::private::UriBuilder::new();
+            for o in op["ops"].as_array().unwrap() {
+                let kind = o[0].as_str().unwrap();
+                match kind {
+                    "lit" => b.push_literal(o[1].as_str().unwrap()),
+                    "path" => b.push_path_parameter_raw(&String::from_utf8(hex(o[1].as_str().unwrap())).unwrap()),
+                    "query" => b.push_query_parameter_raw(o[1].as_str().unwrap(), &String::from_utf8(hex(o[2].as_str().unwrap())).unwrap()),
+                    _ => {}
+                }
+            }
+            let uri = b.build();
+            // server-side view: the same decoding functions the server helpers use
+            let segments: Vec<String> = uri.path().split('/').skip(1)
+                .map(|s| tohex(&percent_encoding::percent_decode_str(s).collect::<Vec<u8>>())).collect();
+            let req = http::Request::builder().uri(uri.clone()).body(()).unwrap();
+            let (parts, _) = req.into_parts();
+            let pairs: Vec<Vec<String>> = match parts.uri.query() {
+                Some(q) => form_urlencoded::parse(q.as_bytes()).map(|(k, v)| vec![tohex(k.as_bytes()), tohex(v.as_bytes())]).collect(),
+                None => vec![],
+            };
+            let grouped = conjure_http::private::parse_query_params(&parts);
+            let mut n_grouped = 0;
+            for (_, v) in grouped.iter() { n_grouped += v.len(); }
+            let u = uri.to_string();
+            json!({"uri": if u.len() > 300 { format!("{}...", &u[..300]) } else { u }, "segments_hex": segments, "pairs_hex": pairs, "grouped_values": n_grouped})
+        }
         _ => json!({"error": format!("unknown op {}", name)}),
     }
 }
